@@ -19,4 +19,9 @@ def pick (multi : Bool) (cb : Rule → List Bool) (rules : List Rule) : List Nat
     | some r => [r.id]
     | none => []
 
+/-- the property's right-hand side over the visits of a file -/
+def specOver (dst : Nat → List Nat) (multi : Nat → Bool) (hist : List (List Rule))
+    (cb : Nat → Rule → List Bool) (visits : List (Nat × Nat)) : List (Nat × Nat) :=
+  visits.flatMap fun v => (pick (multi v.2) (cb v.1) (rulesFor dst hist v.2)).map fun r => (v.1, r)
+
 end Rules
